@@ -2371,7 +2371,11 @@ def _directive_stop_tests(body):
                         out.append(short(y["res"]))
             return sorted(set(out))
         if c.get("k") == "Match" and len(c.get("arms", [])) == 2 and lit_value(c["arms"][0]["body"]) is True:
-            return dt_of_pat(c["arms"][0]["pat"])
+            vs_ = dt_of_pat(c["arms"][0]["pat"])
+            # `matches!(tok, TokenType::Directive(d) if DirectiveToken::from_str(d) == Ok(DirectiveToken::X))`: the variant sits in the guard
+            if not vs_ and c["arms"][0].get("guard") is not None:
+                vs_ = variants(c["arms"][0]["guard"], depth + 1)
+            return vs_
         if c.get("k") == "Path" and c.get("res_kind") == "Local" and depth < 2 and c["res"] in lets:
             return variants(lets[c["res"]]["init"], depth + 1)
         return []
